@@ -4,7 +4,8 @@
 (* transition.  NextR prunes arguments the transcribed checks cannot look at: a creator different from    *)
 (* the signer is rejected by the ante chain before anything is read (one wrong creator per signer);       *)
 (* funder lists are drawn from the rich and the poor user only; a gift by bank transaction is rejected    *)
-(* before anything is read (one tried).                                                                   *)
+(* before anything is read (one tried); a sale that is not authorised / has no fee granter / no funders   *)
+(* is dropped before client and amount are read (one tried).                                              *)
 EXTENDS LightNode
 CONSTANTS MaxOps, MaxNow
 \* <<bond denom, other denom>>: user 1 rich, user 2 cannot pay a single bond unit but holds the other denom, user 3 = the address with an account
@@ -17,7 +18,9 @@ NextR ==
   \/ \E who \in Users, c \in Addrs, amt \in Amounts, m \in Months, d \in Denoms : AddLicense(who, who, c, amt, m, d)
   \/ \E who \in Users : AddLicense(who, OtherUser(who), MinOf(Fresh), 1, MinOf(Months), Bond)
   \/ \E who \in Signers : \E as \in {who, OtherOf(who)} : Register(who, as) \/ Auth(who, as)
-  \/ \E ch \in SaleChains, k \in Contracts, c \in Addrs, amt \in Amounts : Sale(ch, k, c, amt)
+  \/ \E ch \in SaleChains, k \in Contracts : IF Authorised(ch, k) /\ feegr /\ Len(funders) > 0
+                                               THEN \E c \in Addrs, amt \in Amounts : Sale(ch, k, c, amt)
+                                               ELSE Sale(ch, k, MinOf(Fresh), 1)
   \/ \E fs \in Lists2 : fs # funders /\ SetFunders(fs)
   \/ ~feegr /\ SetFeegranter
   \/ \E ch \in SaleChains, k \in Contracts \cup {0} : SetSale(ch, k)
